@@ -944,4 +944,195 @@ Section Core.
     pres (mutate_attr ct rec l a value inplace true force skip).
   Proof. eapply hoare_pre; [|apply mutate_attr_hoare]. intros h _ E. discriminate. Qed.
   Hint Resolve pres_mutate_attr_checked : pr.
+
+  Hint Extern 1 (TypeProofs.pres _ (alloc _)) => (apply pres_alloc; intros ? ? E; inversion E; reflexivity) : pr.
+  Hint Resolve Hrec : pr.
+
+  Lemma pres_run_factory f : pres (run_factory rec f).
+  Proof. unfold run_factory. pstep. destruct f; pgo. apply Hrec. Qed.
+  Lemma pres_default_value sp : pres (default_value ct rec sp).
+  Proof. unfold default_value. destruct (a_factory sp); [apply pres_run_factory|apply pres_protect]. Qed.
+  Lemma pres_lookup_default_value sp k : pres (lookup_default_value ct rec sp k).
+  Proof. unfold lookup_default_value. destruct (assoc _ _); [apply pres_protect|apply pres_default_value]. Qed.
+  Hint Resolve pres_run_factory pres_default_value pres_lookup_default_value : pr.
+
+  Lemma pres_delattr l a force skip : pres (delattr_ ct rec l a force skip).
+  Proof.
+    unfold delattr_. pstep. pstep. apply pres_bind; [pgo|]. intros ?.
+    destruct (if force then None else lookup_attr a1 a) as [sp|].
+    - pstep. pstep.
+      + apply pres_bind; [pprim|]. intros ?. apply pres_bind; [pgo; pprim|]. intros; pstep.
+      + pprim.
+    - apply pres_bind; [pprim|]. intros ?. apply pres_bind; [pgo; pprim|]. intros; pstep.
+  Qed.
+
+  Lemma pres_instantiate_ty t : pres (instantiate_ty rec t).
+  Proof. unfold instantiate_ty. destruct t; pgo. apply Hrec. Qed.
+  Hint Resolve pres_instantiate_ty : pr.
+
+  Lemma pres_prepare_item sp inst item : pres (prepare_item ct rec sp inst item).
+  Proof.
+    unfold prepare_item. apply pres_bind; [destruct (a_prepare_item sp); pprim|]. intros item1.
+    pgo. apply Hrec.
+  Qed.
+
+  Lemma pres_apply_xform x v : pres (apply_xform ct rec x v).
+  Proof.
+    unfold apply_xform. destruct x as [[f|] o]; [pprim|].
+    destruct o as [[sp inst]|]; [apply pres_prepare_item|pstep].
+  Qed.
+  Lemma pres_str_key v : pres (str_key_to_aid v).
+  Proof. unfold str_key_to_aid. destruct v; pgo. Qed.
+  Hint Resolve pres_prepare_item pres_apply_xform pres_str_key : pr.
+
+  Ltac pauto :=
+    first [ solve [pprim]
+          | lazymatch goal with
+            | |- TypeProofs.pres _ (ret _) => apply pres_ret
+            | |- TypeProofs.pres _ (fail _) => apply pres_fail
+            | |- TypeProofs.pres _ (bind _ _) => apply pres_bind; [pauto | intros; pauto]
+            | |- TypeProofs.pres _ (iterM _ _) => apply pres_iterM; intros; pauto
+            | |- TypeProofs.pres _ (mapM _ _) => apply pres_mapM; intros; pauto
+            | |- TypeProofs.pres _ (foldM _ _ _) => apply pres_foldM; intros; pauto
+            | |- TypeProofs.pres _ (thawed_val _ _ _ _) => apply pres_thawed_val; pauto
+            | |- TypeProofs.pres _ (thawed _ _ _ _) => apply pres_thawed; pauto
+            | |- TypeProofs.pres _ (catch _ _ _) => apply pres_catch; pauto
+            | |- TypeProofs.pres _ (let _ := _ in _) => cbv zeta; pauto
+            | |- TypeProofs.pres _ (if ?c then _ else _) => destruct c; pauto
+            | |- TypeProofs.pres _ (match ?x with _ => _ end) => destruct x; pauto
+            end ].
+
+  Lemma pres_mutate_value_body m : pres (mutate_value_body ct rec m).
+  Proof. unfold mutate_value_body. pauto. Qed.
+
+  Lemma pres_mutate_value m : pres (mutate_value ct rec m).
+  Proof. unfold mutate_value. destruct (mv_new m); try apply pres_mutate_value_body. apply pres_ret. Qed.
+
+  (* ---------------- collections ---------------- *)
+  Lemma pres_loc_of_t v : pres (loc_of_t v).
+  Proof. destruct v; simpl; pauto. Qed.
+  Hint Resolve pres_loc_of_t : pr.
+
+  Lemma read_list_hoare v : hoare TT (read_list v) (fun p h => has_shape 0 (fst p) h).
+  Proof.
+    unfold read_list. eapply hoare_bind; [apply pres_loc_of_t|]. intros l.
+    eapply hoare_bind; [apply hoare_read_ok|]. intros o. destruct o; try apply hoare_fail.
+    apply hoare_ret. simpl. tauto.
+  Qed.
+  Lemma read_dict_hoare v : hoare TT (read_dict v) (fun p h => has_shape 1 (fst p) h).
+  Proof.
+    unfold read_dict. eapply hoare_bind; [apply pres_loc_of_t|]. intros l.
+    eapply hoare_bind; [apply hoare_read_ok|]. intros o. destruct o; try apply hoare_fail.
+    apply hoare_ret. simpl. tauto.
+  Qed.
+  Lemma read_set_hoare v : hoare TT (read_set v) (fun p h => has_shape 2 (fst p) h).
+  Proof.
+    unfold read_set. eapply hoare_bind; [apply pres_loc_of_t|]. intros l.
+    eapply hoare_bind; [apply hoare_read_ok|]. intros o. destruct o; try apply hoare_fail.
+    apply hoare_ret. simpl. tauto.
+  Qed.
+  Lemma pres_read_list v : pres (read_list v). Proof. eapply pres_post. apply read_list_hoare. Qed.
+  Lemma pres_read_dict v : pres (read_dict v). Proof. eapply pres_post. apply read_dict_hoare. Qed.
+  Lemma pres_read_set v : pres (read_set v). Proof. eapply pres_post. apply read_set_hoare. Qed.
+  Hint Resolve pres_read_list pres_read_dict pres_read_set : pr.
+
+  Lemma pres_find_eq_index xs v : pres (find_eq_index ct xs v).
+  Proof. unfold find_eq_index. pauto. Qed.
+  Lemma pres_dict_lookup kvs k : pres (dict_lookup ct kvs k).
+  Proof. unfold dict_lookup. pauto. Qed.
+  Lemma pres_dict_assign kvs k v : pres (dict_assign ct kvs k v).
+  Proof. unfold dict_assign. pauto. Qed.
+  Lemma pres_set_mem xs v : pres (set_mem ct xs v).
+  Proof. unfold set_mem. pauto. Qed.
+  Lemma pres_set_discard xs v : pres (set_discard ct xs v).
+  Proof. unfold set_discard. pauto. Qed.
+  Hint Resolve pres_find_eq_index pres_dict_lookup pres_dict_assign pres_set_mem pres_set_discard : pr.
+
+  (* a container write after the cell has been seen to be of that kind *)
+  Lemma write_container n l o :
+    shape o = n -> n < 3 -> hoare (has_shape n l) (write l o) (fun _ _ => True).
+  Proof.
+    intros S L. eapply hoare_pre; [|apply hoare_write_ok]. intros h H. rewrite S. split; auto.
+    destruct o; simpl in *; auto. lia.
+  Qed.
+
+  Lemma hoare_of_pres {A} (P : heap_t -> Prop) (m : M A) : pres m -> hoare P m (fun _ _ => True).
+  Proof. intro H. eapply hoare_pre; [|exact H]. intros; exact I. Qed.
+
+  (* goals `hoare (has_shape n l) m True`: m is pure/pres steps ending in a write of kind n to l *)
+  Ltac wauto :=
+    first [ solve [apply write_container; [reflexivity|lia]]
+          | solve [apply hoare_of_pres; pauto]
+          | lazymatch goal with
+            | |- TypeProofs.hoare _ _ (bind _ _) _ =>
+                eapply hoare_bind_keep; [apply has_shape_stable|apply hoare_of_pres; pauto|];
+                intros; (eapply hoare_pre; [intros ? [_ ?]; eassumption|]); wauto
+            | |- TypeProofs.hoare _ _ (let _ := _ in _) _ => cbv zeta; wauto
+            | |- TypeProofs.hoare _ _ (if ?c then _ else _) _ => destruct c; wauto
+            | |- TypeProofs.hoare _ _ (match ?x with _ => _ end) _ => destruct x; wauto
+            end ].
+
+  Lemma pres_seq_extractor sp coll voi r bi : pres (seq_extractor ct sp coll voi r bi).
+  Proof. unfold seq_extractor. pauto. Qed.
+  Lemma pres_map_extractor coll key r : pres (map_extractor ct coll key r).
+  Proof. unfold map_extractor. pauto. Qed.
+  Lemma pres_set_extractor coll voi r : pres (set_extractor ct coll voi r).
+  Proof. unfold set_extractor. pauto. Qed.
+
+  Lemma pres_seq_inserter sp coll index item ins : pres (seq_inserter ct sp coll index item ins).
+  Proof.
+    unfold seq_inserter. apply pres_bind; [pauto|]. intros ok. destruct (negb ok); [apply pres_fail|].
+    eapply hoare_bind; [apply read_list_hoare|]. intros p. wauto.
+  Qed.
+  Lemma pres_map_inserter sp coll key item : pres (map_inserter ct sp coll key item).
+  Proof.
+    unfold map_inserter. apply pres_bind; [pauto|]. intros okk. destruct (negb okk); [apply pres_fail|].
+    apply pres_bind; [pauto|]. intros ok. destruct (negb ok); [apply pres_fail|].
+    eapply hoare_bind; [apply read_dict_hoare|]. intros p. wauto.
+  Qed.
+  Lemma pres_set_inserter sp coll index item : pres (set_inserter ct sp coll index item).
+  Proof.
+    unfold set_inserter. apply pres_bind; [pauto|]. intros ok. destruct (negb ok); [apply pres_fail|].
+    eapply hoare_bind; [apply read_set_hoare|]. intros p. wauto.
+  Qed.
+  Hint Resolve pres_seq_extractor pres_map_extractor pres_set_extractor
+       pres_seq_inserter pres_map_inserter pres_set_inserter : pr.
+
+  Lemma pres_create_collection sp : pres (create_collection rec sp).
+  Proof. apply pres_instantiate_ty. Qed.
+  Lemma pres_truthy_collection v : pres (truthy_collection v).
+  Proof. unfold truthy_collection. destruct v; pauto. Qed.
+  Hint Resolve pres_create_collection pres_truthy_collection : pr.
+
+  Lemma pres_mutate_collection fam sp inst coll io : pres (mutate_collection ct rec fam sp inst coll io).
+  Proof. unfold mutate_collection. pauto. Qed.
+  Hint Resolve pres_mutate_collection : pr.
+
+  Lemma pres_add_items fam sp inst coll items : pres (add_items ct rec fam sp inst coll items).
+  Proof. unfold add_items. destruct items; try apply pres_fail. apply pres_bind; [pauto|]. intros o. destruct fam, o; pauto. Qed.
+  Hint Resolve pres_add_items : pr.
+
+  Lemma pres_prepare_items fam sp inst coll : pres (prepare_items ct rec fam sp inst coll).
+  Proof. unfold prepare_items. destruct fam; pauto. Qed.
+  Hint Resolve pres_prepare_items : pr.
+
+  Lemma pres_copy_cell l : pres (o <- read l ;; alloc o).
+  Proof.
+    eapply hoare_bind; [apply hoare_read_ok|]. intros o.
+    eapply pres_post. eapply hoare_pre; [|apply hoare_alloc]. tauto.
+  Qed.
+
+  Lemma pres_coll_prepare sp inst coll : pres (coll_prepare ct rec sp inst coll).
+  Proof.
+    unfold coll_prepare. destruct (family_of (a_ty sp)) as [fam|]; [|apply pres_ret].
+    apply pres_bind; [destruct coll; pauto|]. intros coll1.
+    apply pres_bind; [pauto|]. intros ok. destruct (negb ok); [pauto|].
+    apply pres_bind; [pauto|]. intros t. destruct (a_prepare_item sp); [|apply pres_ret].
+    destruct t; [|apply pres_ret].
+    apply pres_bind; [pauto|]. intros l.
+    eapply hoare_bind; [apply hoare_read_ok|]. intros o.
+    eapply hoare_bind; [eapply hoare_pre; [|apply hoare_alloc]; tauto|]. intros l'.
+    apply hoare_of_pres; pauto.
+  Qed.
+  Hint Resolve pres_coll_prepare : pr.
 End Core.
